@@ -103,9 +103,10 @@ N == Len(st.nodes)
 Step(name, n, x, res) == st' = res.st /\ last' = [a |-> name, n |-> n, x |-> x, ret |-> res.ret]
 \* (an unpickled statement carries its own copies of the Table objects: extending it with expressions over the program's tables
 \*  would mix two tables named alike - not a meaningful program, excluded)
-\* Query refuses filter()/join()/having() once LIMIT or OFFSET is set (orm/query.py _no_limit_offset): the call raises and nothing exists
+\* Query refuses filter()/join()/having()/order_by()/group_by() once LIMIT or OFFSET is set (orm/query.py _no_limit_offset): the call raises and nothing exists
 \* afterwards that did not exist before
-Refused(d, m) == Kind = "query" /\ m \in {"where", "wherein", "join", "outerjoin", "having"} /\ Count(d, "limit") + Count(d, "offset") > 0
+Refused(d, m) == Kind = "query" /\ m \in {"where", "wherein", "join", "outerjoin", "having", "order", "group"}
+                    /\ Count(d, "limit") + Count(d, "offset") > 0
 Derive == \E p \in 1..N, m \in Methods : N < MaxNodes /\ st.nodes[p].via # "pickle" /\ Count(Descr(st.nodes, p), m) < MaxRepeat
              /\ Step("Derive", p, m, IF Refused(Descr(st.nodes, p), m) THEN R(st, "InvalidRequestError") ELSE DoDerive(st, p, m))
 Copy == \E p \in 1..N, how \in Hows : N < MaxNodes /\ st.nodes[p].via \notin Hows /\ Step("Copy", p, how, DoCopy(st, p, how))
